@@ -45,6 +45,7 @@ struct R3Monitor {
   };
   std::map<Key, Tx> m;
   std::set<int> watched;                    // nodes whose CONs are judged
+  std::set<Bytes> exempt_tokens;            // messages carrying these tokens are not judged (narrow, stated by the world)
 
   R3Monitor(World &w_, RunResult &r) : w(w_), res(r) {}
 
@@ -192,6 +193,7 @@ struct R3Monitor {
       if (kv.first.node != node) continue;
       Tx &tx = kv.second;
       if (tx.t_ack || tx.t_rst || tx.t_resp || tx.nacks || tx.session_gone || tx.t.empty()) continue;
+      if (exempt_tokens.count(tx.token)) continue;
       Params p = par(node, kv.first.dst);
       double gap_ms = tx.t.size() == 1 ? (p.at_ms + 8) * (p.rf + 1.0 / 128) + 8 : tx.Thi * (double)(1u << (tx.t.size() - 1));
       uint64_t d = tx.t.back() + (uint64_t)((gap_ms + tol_ms * (double)tx.t.size()) * 1e6);
@@ -214,8 +216,7 @@ struct R3Monitor {
     for (auto &kv : m) {
       Tx &tx = kv.second;
       const Key &k = kv.first;
-      if (tx.session_gone) continue;
-      Params p = par(k.node, k.dst);
+      if (tx.session_gone || exempt_tokens.count(tx.token)) continue;
       if (tx.t_resp) {
         if (tx.nacks) violate(tx, k, "nack_after_response", "both a response and a NACK");
       } else if (tx.t_ack) {
